@@ -23,6 +23,10 @@ claimed = {
               technique="deterministic simulation: seeded scheduler with virtual clock, timer/cancel/close fault injection, token-conservation oracle, race detector in-sim"),
   "C10": dict(tier="S", text="Seeded search over schedules of publishers (all six variants, WithOnly), per-subscription receivers (well-behaved, slow, stopping, absent), and a control task subscribing and unsubscribing, with the virtual clock driving PubTimeoutAfter and stalls letting deadlines pass; at-most-once, exactly-once / delivery-or-timeout accounting, Sync order, Wait-returns-after-hand-off (no live sender task at return), error values, closing exactly the removed channels, and no panic in any task including library-spawned ones. The known send-on-closed-channel panic of the asynchronous variants is recorded as four open findings.", ref="3 (C10)",
               technique="deterministic simulation: seeded scheduler with virtual clock, receiver-stall/unsubscribe/close fault injection, conservation and ordering oracles over the recorded history"),
+  "C01": dict(tier="H", text="Seeded search over operation histories (single client, no faults - the property has no schedule, clock or fault in it) of the AVL tree against a sorted-multiset reference model stepped call by call on every live tree and clone, with cross-invariants (Len, Contains over the universe, the three traversals being one binary tree, Walk = Slice, String) after every call and minimised replay files. Found and now guards three defects (fixed).", ref="4 (C01), 2.11",
+              technique="seeded operation-history search against an executable reference model in the simulator's fault-free single-client configuration (no interleaving or fault dimension exists)"),
+  "C02": dict(tier="H", text="Seeded search over insertion/deletion histories from six adversarial families; after every call the shape is reconstructed from the public traversals and the AVL balance of every node, the depth bound and the comparator-call budget are checked. Single client, no faults. Found and now guards the missing rebalancing (fixed).", ref="4 (C02), 2.11",
+              technique="seeded operation-history search with a structural invariant oracle in the simulator's fault-free single-client configuration"),
 }
 
 not_applicable = {
